@@ -21,6 +21,7 @@ import (
 
 type Obl struct {
 	Fn       string
+	Fails    []string // bounded stand-ins: the inputs that failed on the real code
 	Name     string // full name fn#kind.label
 	Kind     string // post pre inv.entry inv.preserve safe frame lemma cover canary alloc decreases
 	Label    string
